@@ -207,6 +207,19 @@ func init() {
 			c.Dist("long_printed_line_documents")
 			c01One(c, sb.String(), "long-printed-line")
 		}
+		// deeply nested definitions (six families x three operators): the JSON of such a model nests two messages per
+		// parenthesised group, and every depth the parser accepts must come back through both printing paths
+		deep := []int{6, 10, 13, 14, 15, 16, 17, 24, 31, 32, 33, 48}
+		if c.Thorough() {
+			deep = append(deep, 64, 65, 100, 128)
+		}
+		for _, d := range deepDocs(deep) {
+			if strings.HasPrefix(d, "module") {
+				continue // a module file is not a full model (no model/schema header): outside this property
+			}
+			c.Dist("deep_nesting_documents")
+			c01One(c, d, "deep-nesting")
+		}
 		c.Sample(map[string]any{"dsl": "model\n  schema 1.1\ntype user\ntype doc\n  relations\n    define v: [user] or (a and b from p)"})
 	}
 }
